@@ -36,6 +36,15 @@
     the history — `prologueBuffer`, `attrsSeqB` (the interpolation loop over `buffer.len()`),
     `bufferAfter` — and must reproduce every attribute bit for bit.  `ok <nverts>` or
     `fail stroke-attrs/model-vs-impl generic …`.
+  * `stroke_reuse:32`  `<ncalls> ( F <refuse k+1 | 0> <m> <tol> <width> <miter_limit> <join> <cap> <cap> <variable 0/1>
+                                    <fw_ids 0/1> <nattr> <nev> (events of C05's `fulle`)*
+                                | G <refuse k+1 | 0> <m> <bld|drop|rejected> <tol> <width> <miter_limit> <join> <cap> <cap>
+                                    <variable 0/1> <nattr> <ncmd> (commands of C05's `prog`)* )*`
+        → per call `call ok|err|dropped V <n> (<vertex, all accessors> A <k> <attr>{k})* T <m> (a b c)*` or
+        `call panic`: the COMPLETE stroker model as a long-lived object.  The model side runs
+        `Full.strokeObjF` (`Model/Tess/ResetStrokeFull.lean`) over the whole history from `StrokeT.new`: every
+        call is `strokeCallF t c` with `t` = the object (attribute buffer, builder store) the MODEL of the
+        previous call left behind.  The implementation side is ONE real `StrokeTessellator`.
   The history families `hist_fill`, `hist_stroke` are oracle-only (real code against real code).
 -/
 import LyonVerif.Drive.Common
@@ -43,6 +52,7 @@ import LyonVerif.Model.Tess.Reset
 import LyonVerif.Model.Tess.ResetSweep
 import LyonVerif.Model.Tess.ResetSweepCurves
 import LyonVerif.Model.Tess.StrokeAttrBuffer
+import LyonVerif.Model.Tess.ResetStrokeFull
 
 namespace Lyon.Drive.C08
 open Lyon Lyon.Drive Lyon.Mono Lyon.Reset
@@ -317,12 +327,135 @@ def chkStrokeAttrs (v : Array String) : String :=
 
 end strokeAttrs
 
+/-! ### `stroke_reuse` -/
+
+section strokeReuse
+open Lyon.Stroke Lyon.Stroke.Full
+variable [Transc α]
+
+def sJoinOf : String → LineJoin
+  | "miter" => .miter | "miterclip" => .miterClip | "round" => .round | _ => .bevel
+def sCapOf : String → LineCap
+  | "butt" => .butt | "square" => .square | _ => .round
+def rdB (v : Array String) (i : Nat) : Bool := v.getD i "0" == "1"
+def rdListS (v : Array String) (i n : Nat) : List α := (List.range n).map (fun k => rd v (i + k))
+
+def rdPtsS (v : Array String) : Nat → Nat → List (P α)
+  | 0, _ => []
+  | n+1, i => rdP v i :: rdPtsS v n (i+2)
+
+/-- the id events of C05's `fulle` with the caller's store, and the index after them -/
+def rdEventsI (v : Array String) (nattr : Nat) : Nat → Nat → (List (IdEv α) × List (Nat × List α)) × Nat
+  | 0, i => (([], []), i)
+  | n+1, i =>
+    match v.getD i "" with
+    | "B" =>
+      let r := rdEventsI v nattr n (i + 4 + nattr)
+      ((IdEv.begin (rdNat v (i+1)) (rdP v (i+2)) :: r.1.1, (rdNat v (i+1), rdListS v (i+4) nattr) :: r.1.2), r.2)
+    | "L" =>
+      let r := rdEventsI v nattr n (i + 4 + nattr)
+      ((IdEv.line (rdNat v (i+1)) (rdP v (i+2)) :: r.1.1, (rdNat v (i+1), rdListS v (i+4) nattr) :: r.1.2), r.2)
+    | "Q" =>
+      let r := rdEventsI v nattr n (i + 6 + nattr)
+      ((IdEv.quad (rdP v (i+1)) (rdNat v (i+3)) (rdP v (i+4)) :: r.1.1, (rdNat v (i+3), rdListS v (i+6) nattr) :: r.1.2), r.2)
+    | "C" =>
+      let r := rdEventsI v nattr n (i + 8 + nattr)
+      ((IdEv.cubic (rdP v (i+1)) (rdP v (i+3)) (rdNat v (i+5)) (rdP v (i+6)) :: r.1.1,
+        (rdNat v (i+5), rdListS v (i+8) nattr) :: r.1.2), r.2)
+    | _ =>
+      let r := rdEventsI v nattr n (i + 2)
+      ((IdEv.end_ (rdB v (i+1)) :: r.1.1, r.1.2), r.2)
+
+def toPathEvS : IdEv α → PathEv α
+  | .begin _ p => .begin p
+  | .line _ p => .line p
+  | .quad c _ p => .quad c p
+  | .cubic c1 c2 _ p => .cubic c1 c2 p
+  | .end_ c => .end_ c
+
+open Lyon.Stroke.Prog in
+/-- the commands of C05's `prog`, and the index after them -/
+def rdCmdsI (v : Array String) (nattr : Nat) : Nat → Nat → List (Cmd α) × Nat
+  | 0, i => ([], i)
+  | n+1, i =>
+    let next (c : Cmd α) (j : Nat) : List (Cmd α) × Nat := let r := rdCmdsI v nattr n j; (c :: r.1, r.2)
+    match v.getD i "" with
+    | "B" => next (Cmd.begin (rdP v (i+1)) (rdListS v (i+3) nattr)) (i + 3 + nattr)
+    | "L" => next (Cmd.line (rdP v (i+1)) (rdListS v (i+3) nattr)) (i + 3 + nattr)
+    | "Q" => next (Cmd.quad (rdP v (i+1)) (rdP v (i+3)) (rdListS v (i+5) nattr)) (i + 5 + nattr)
+    | "C" => next (Cmd.cubic (rdP v (i+1)) (rdP v (i+3)) (rdP v (i+5)) (rdListS v (i+7) nattr)) (i + 7 + nattr)
+    | "E" => next (Cmd.end_ (rdB v (i+1))) (i + 2)
+    | "R" => next (Cmd.rect (rdP v (i+1)) (rdP v (i+3)) (rdB v (i+5)) (rdListS v (i+6) nattr)) (i + 6 + nattr)
+    | "P" =>
+      let k := rdNat v (i+1)
+      next (Cmd.polygon (rdPtsS v k (i+3)) (rdB v (i+2)) (rdListS v (i + 3 + 2 * k) nattr)) (i + 3 + 2 * k + nattr)
+    | "S" => next (Cmd.segment (rdP v (i+1)) (rdP v (i+3)) (rdListS v (i+5) nattr)) (i + 5 + nattr)
+    | "O" => next (Cmd.point (rdP v (i+1)) (rdListS v (i+3) nattr)) (i + 3 + nattr)
+    | "SJ" => next (Cmd.setJoin (sJoinOf (v.getD (i+1) ""))) (i + 2)
+    | "SS" => next (Cmd.setStartCap (sCapOf (v.getD (i+1) ""))) (i + 2)
+    | "SE" => next (Cmd.setEndCap (sCapOf (v.getD (i+1) ""))) (i + 2)
+    | _ => next (Cmd.setMiterLimit (rd v (i+1))) (i + 2)
+
+def rdOpts (v : Array String) (i : Nat) : Opts α :=
+  ⟨rd v i, rd v (i+1), rd v (i+2), sJoinOf (v.getD (i+3) ""), sCapOf (v.getD (i+4) ""), sCapOf (v.getD (i+5) ""),
+   rdB v (i+6), 0⟩
+
+/-- the calls of a history -/
+def rdCallsF (v : Array String) : Nat → Nat → List (CallF α)
+  | 0, _ => []
+  | n+1, i =>
+    let k := rdNat v (i+1)
+    let refuse : Option (Nat × Nat) := if k == 0 then none else some (k - 1, rdNat v (i+2))
+    if v.getD i "" == "F" then
+      let o : Opts α := rdOpts v (i+3)
+      let fwIds := rdB v (i+10)
+      let nattr := rdNat v (i+11)
+      let ev := rdEventsI (α := α) v nattr (rdNat v (i+12)) (i+13)
+      let body : BodyF α := if fwIds then .fw o (ev.1.1.map toPathEvS) else .ids o nattr ev.1.1 ev.1.2
+      ⟨body, refuse⟩ :: rdCallsF v n ev.2
+    else
+      let kind := v.getD (i+3) ""
+      let o : Opts α := rdOpts v (i+4)
+      let nattr := rdNat v (i+11)
+      let cm := rdCmdsI (α := α) v nattr (rdNat v (i+12)) (i+13)
+      let body : BodyF α := if kind == "rejected" then .rejected else .prog o nattr (kind == "drop") cm.1
+      ⟨body, refuse⟩ :: rdCallsF v n cm.2
+
+def fSideS : Side → String
+  | .positive => "P"
+  | .negative => "N"
+
+def fSrcS : Stroke.Src α → String
+  | .endpoint id => "E " ++ toString id
+  | .edge f t u => "G " ++ toString f ++ " " ++ toString t ++ " " ++ fx u
+
+def fVtxS (v : Vtx α) : String :=
+  unwords [fp v.position, fp v.normal, fp v.positionOnPath, fx v.lineWidth, fx v.advancement,
+           fSideS v.side, fSrcS v.src]
+
+def fOutF (o : OutF α) : String :=
+  match o.outcome with
+  | .panic => "call panic"
+  | oc =>
+    let w := match oc with | .ok => "ok" | .err => "err" | .dropped => "dropped" | .panic => "panic"
+    unwords (["call", w, "V", toString o.verts.length]
+      ++ (o.verts.zip o.attrs).map (fun (d, a) => unwords ([fVtxS d.read, "A", toString a.length] ++ a.map fx))
+      ++ ["T", toString o.tris.length]
+      ++ o.tris.map (fun t => toString t.1 ++ " " ++ toString t.2.1 ++ " " ++ toString t.2.2))
+
+def strokeReuse [HasIx α] [Asin α] [FlatConst α] (v : Array String) : String :=
+  let calls : List (CallF α) := rdCallsF v (rdNat v 0) 1
+  unwords (((strokeObjF HasIx.ix).outputs (Reset.StrokeT.new : Reset.StrokeT α) calls).map fOutF)
+
+end strokeReuse
+
 def families : List Family := [
   ⟨"mono_reuse", monoReuse (α := Float32), monoReuse (α := Float)⟩,
   Family.plain "chk_interp" (chkInterp (α := Float32)),
   Family.plain "chk_stroke_attrs" (chkStrokeAttrs (α := Float32)),
   ⟨"sweep_reuse", sweepReuse (α := Float32), sweepReuse (α := Float32)⟩,
-  ⟨"sweepc_reuse", sweepcReuse (α := Float32), sweepcReuse (α := Float32)⟩ ]
+  ⟨"sweepc_reuse", sweepcReuse (α := Float32), sweepcReuse (α := Float32)⟩,
+  ⟨"stroke_reuse", strokeReuse (α := Float32), strokeReuse (α := Float32)⟩ ]
 
 end Lyon.Drive.C08
 
